@@ -8,6 +8,7 @@ import numpy as np
 
 from vp import gen
 from vp import defaults
+from vp import reuse
 from vp.gen import layout as gen_layout
 
 from vp import probe, refmodels as rm
@@ -201,6 +202,7 @@ def _shape(rng, hi):
 
 def workload(ctx, lentil):
     defaults.run(ctx, lentil, 'C01', 'dft2=sum')
+    reuse.run(ctx, lentil, 'C01', 'dft2=sum')
     rng = ctx.rng
     dft2, idft2 = lentil.fourier.dft2, lentil.fourier.idft2
     hi = 24 if ctx.tier == 'quick' else 64
